@@ -283,15 +283,15 @@ var rErrnoTable = &Rule{
 		})
 		nNative := 0
 		for _, ret := range sx.Returns(dec) {
-			var visit func(v ssa.Value, at *ssa.BasicBlock, d int)
-			visit = func(v ssa.Value, at *ssa.BasicBlock, d int) {
+			var visit func(v ssa.Value, lits []lit, d int)
+			visit = func(v ssa.Value, lits []lit, d int) {
 				if d > 4 {
 					return
 				}
 				switch x := v.(type) {
 				case *ssa.Phi:
 					for i, e := range x.Edges {
-						visit(e, x.Block().Preds[i], d+1)
+						visit(e, edgeLits(x.Block().Preds[i], x.Block()), d+1)
 					}
 				case *ssa.MakeInterface:
 					if !sx.IsNamed(x.X.Type(), "syscall", "Errno") {
@@ -299,7 +299,7 @@ var rErrnoTable = &Rule{
 					}
 					nNative++
 					ok := false
-					for _, l := range dominatingLits(at) {
+					for _, l := range lits {
 						bin, isBin := l.V.(*ssa.BinOp)
 						if !isBin || !((bin.Op == token.NEQ && l.Neg) || (bin.Op == token.EQL && !l.Neg)) {
 							continue
@@ -322,7 +322,7 @@ var rErrnoTable = &Rule{
 						"a native syscall.Errno is rebuilt from the sender's number without establishing that the sender's whole platform string (OS and CPU) equals this build's: errno numbering differs between platforms, the predicates (timeout, not-exist, …) recorded by the sender are discarded and recomputed from the wrong table")
 				}
 			}
-			visit(ret.Results[0], ret.Block(), 0)
+			visit(ret.Results[0], dominatingLits(ret.Block()), 0)
 		}
 		c.Check(nNative >= 1 && written != "", "errbase.decodeErrno: native branch", dec.Pos(), "exists, and the encoder writes a constant platform string", "the decoder has no native branch or the encoder's Arch is not a constant")
 	},
